@@ -1,10 +1,13 @@
 import MoneroModel.Model.TxHash
 import MoneroModel.Proofs.TxSound4
-/-! # The transaction identifier commits to the received bytes (relative to collisions of `H`)
+/-! # The transaction identifier commits to the received bytes (relative to collisions of `H` among the strings it hashes)
 
-`txid_commits`: two strictly parsed transactions of the same version class with the same identifier were parsed
-from the same bytes, unless the equality of identifiers exhibits a collision of the hash function `H`
-(an arbitrary function with 32-byte outputs; Keccak-256 in the code).  Core Lean only. -/
+`hashed H t` is the finite list of byte strings that `Transaction::hash` feeds to the hash function while computing the
+identifier of `t` (the model `txHash H t`, Model/TxHash.lean). `txid_commits`: two strictly parsed transactions of the same
+version class with the same identifier were parsed from the same bytes, unless two DIFFERENT strings, one of `hashed H t1`
+and one of `hashed H t2`, have the same hash (`H` is an arbitrary function with 32-byte outputs; Keccak-256 in the code).
+The collision is between two explicit members of two explicit lists: "`H` has some collision somewhere" — which every
+function into 32-byte strings has, by counting — would say nothing.  Core Lean only. -/
 namespace Monero
 
 /-- what the decoder guarantees about a parsed non-v1 transaction with at least one input: the RingCT base is
@@ -136,34 +139,84 @@ theorem parsed_base_ty (b : Bytes) (t : Tx) (r : Bytes) (h : tx b = some (t, r))
               exact fin _ _ h6
       · exact fin _ _ h4
 
-/-- normal form of (received bytes, identifier) of a strictly parsed non-v1 transaction: either
+/-- **The strings hashed while computing `txHash H t`**, in the order in which `Transaction::hash` hashes them
+(transaction.rs:780-817): version 1 — the serialisation; otherwise the prefix (`TransactionPrefix::hash`), then, when a RingCT
+base is present, the base (`RctSigBase::hash`) and, for a non-Null type with a prunable part, the prunable part; last the
+concatenation of the 32-byte digests (1 or 3 of them; the third is 0³² for Null and a hard-coded constant for a missing
+prunable part), whose hash is the identifier (`txHash_eq_hash_last`). -/
+def hashed (H : Bytes → Bytes) (t : Tx) : List Bytes :=
+  if t.pre.version = 1 then [encTx t] else
+  match t.base with
+  | none => [encPrefix t.pre, H (encPrefix t.pre)]
+  | some b =>
+    [encPrefix t.pre, encBase b] ++
+    (if b.ty = 0 then [] else match t.prun with | some p => [encPrunable p b.ty] | none => []) ++
+    [H (encPrefix t.pre) ++ (H (encBase b) ++
+      (if b.ty = 0 then zeroHash else match t.prun with | some p => H (encPrunable p b.ty) | none => Gen.emptyPrunableHash))]
+
+/-- the identifier is the hash of the LAST string of `hashed H t` … -/
+theorem txHash_eq_hash_last (H : Bytes → Bytes) (t : Tx) :
+    ∃ u, (hashed H t).getLast? = some u ∧ txHash H t = H u := by
+  unfold hashed txHash
+  by_cases hv : t.pre.version = 1
+  · simp [hv]
+  · cases hb : t.base with
+    | none => simp [hv, prefixHash]
+    | some b =>
+      by_cases h0 : b.ty = 0
+      · simp [hv, prefixHash, h0]
+      · cases t.prun <;> simp [hv, prefixHash, h0]
+
+/-- … and, when the version is not 1, that last string is the concatenation of the digests of the strings before it, in order
+(followed by 0³² for the Null type, where nothing else is hashed) — for every transaction that carries a prunable part exactly
+when its type is not Null (every parsed one: `parsed_shape'`) -/
+theorem hashed_last_is_digests (H : Bytes → Bytes) (t : Tx) (hv : t.pre.version ≠ 1)
+    (hp : ∀ b, t.base = some b → b.ty ≠ 0 → t.prun ≠ none) :
+    ∃ u, (hashed H t).getLast? = some u ∧
+      u = (((hashed H t).dropLast).map H).flatten ++
+        (match t.base with | some b => if b.ty = 0 then zeroHash else [] | none => []) := by
+  unfold hashed
+  cases hb : t.base with
+  | none => simp [hv]
+  | some b =>
+    by_cases h0 : b.ty = 0
+    · simp [hv, h0]
+    · cases hq : t.prun with
+      | none => exact absurd hq (hp b hb h0)
+      | some p => simp [hv, h0]
+
+/-- normal form of (received bytes, identifier, hashed strings) of a strictly parsed non-v1 transaction: either
 `b = prefix`, `id = H (H prefix)`, or `b = prefix ‖ base ‖ X`, `id = H (H prefix ‖ H base ‖ Y)` with
 `X = []`, `Y = 0^32` for the Null type and `Y = H X` otherwise -/
-def IdShape (H : Bytes → Bytes) (b id : Bytes) : Prop :=
-  (∃ e, b = e ∧ id = H (H e)) ∨
+def IdShape (H : Bytes → Bytes) (b id : Bytes) (L : List Bytes) : Prop :=
+  (∃ e, b = e ∧ id = H (H e) ∧ L = [e, H e]) ∨
   ∃ e bs X Y, b = e ++ (encBase bs ++ X) ∧ id = H (H e ++ (H (encBase bs) ++ Y)) ∧ bs.ty ≤ 6 ∧
-    ((bs.ty = 0 ∧ X = [] ∧ Y = zeroHash) ∨ (bs.ty ≠ 0 ∧ Y = H X))
+    ((bs.ty = 0 ∧ X = [] ∧ Y = zeroHash ∧ L = [e, encBase bs, H e ++ (H (encBase bs) ++ Y)]) ∨
+     (bs.ty ≠ 0 ∧ Y = H X ∧ L = [e, encBase bs, X, H e ++ (H (encBase bs) ++ Y)]))
 
 theorem parsed_idShape (H : Bytes → Bytes) (b : Bytes) (t : Tx) (h : tx b = some (t, [])) (hv : t.pre.version ≠ 1) :
-    IdShape H b (txHash H t) := by
+    IdShape H b (txHash H t) (hashed H t) := by
   have hs := sound_tx b t [] h
   simp only [List.append_nil] at hs
   by_cases hi : t.pre.ins = []
   · have hb := parsed_no_inputs b t [] h hv hi
-    refine Or.inl ⟨encPrefix t.pre, ?_, ?_⟩
+    refine Or.inl ⟨encPrefix t.pre, ?_, ?_, ?_⟩
     · rw [hs]; simp [encTx, hv, hb]
     · simp [txHash, hv, hb, prefixHash]
+    · simp [hashed, hv, hb]
   · obtain ⟨bs, hb, hz, hnz⟩ := parsed_shape' b t [] h hv hi
     have hle := parsed_base_ty b t [] h bs hb
     by_cases hty : bs.ty = 0
     · have hp := hz hty
-      refine Or.inr ⟨encPrefix t.pre, bs, [], zeroHash, ?_, ?_, hle, Or.inl ⟨hty, rfl, rfl⟩⟩
+      refine Or.inr ⟨encPrefix t.pre, bs, [], zeroHash, ?_, ?_, hle, Or.inl ⟨hty, rfl, rfl, ?_⟩⟩
       · rw [hs]; simp [encTx, hv, hb, hp]
       · simp [txHash, hv, hb, hty, prefixHash]
+      · simp [hashed, hv, hb, hty]
     · obtain ⟨p, hp⟩ := hnz hty
-      refine Or.inr ⟨encPrefix t.pre, bs, encPrunable p bs.ty, H (encPrunable p bs.ty), ?_, ?_, hle, Or.inr ⟨hty, rfl⟩⟩
+      refine Or.inr ⟨encPrefix t.pre, bs, encPrunable p bs.ty, H (encPrunable p bs.ty), ?_, ?_, hle, Or.inr ⟨hty, rfl, ?_⟩⟩
       · rw [hs]; simp [encTx, hv, hb, hp]
       · simp [txHash, hv, hb, hty, hp, prefixHash]
+      · simp [hashed, hv, hb, hty, hp]
 
 theorem ofNat_inj_le6 (a c : Nat) (ha : a ≤ 6) (hc : c ≤ 6) (h : UInt8.ofNat a = UInt8.ofNat c) : a = c := by
   have := congrArg UInt8.toNat h
@@ -176,55 +229,68 @@ theorem encBase_ty (b1 b2 : Base) (h1 : b1.ty ≤ 6) (h2 : b2.ty ≤ 6) (h : enc
 
 theorem zeroHash_length : zeroHash.length = 32 := by simp [zeroHash]
 
-/-- two byte strings in normal form with the same identifier are equal, or `H` has a collision -/
-theorem idShape_commits (H : Bytes → Bytes) (hlen : ∀ x, (H x).length = 32) (b1 b2 id : Bytes)
-    (s1 : IdShape H b1 id) (s2 : IdShape H b2 id) :
-    b1 = b2 ∨ ∃ u v, u ≠ v ∧ H u = H v := by
-  rcases s1 with ⟨e1, rfl, i1⟩ | ⟨e1, bs1, X1, Y1, rfl, i1, l1, c1⟩
-  · rcases s2 with ⟨e2, rfl, i2⟩ | ⟨e2, bs2, X2, Y2, rfl, i2, l2, c2⟩
+/-- a collision of `H` between a string of `L1` and a string of `L2` -/
+def CollisionBetween (H : Bytes → Bytes) (L1 L2 : List Bytes) : Prop :=
+  ∃ u, u ∈ L1 ∧ ∃ v, v ∈ L2 ∧ u ≠ v ∧ H u = H v
+
+/-- two byte strings in normal form with the same identifier are equal, or `H` collides on two of the hashed strings -/
+theorem idShape_commits (H : Bytes → Bytes) (hlen : ∀ x, (H x).length = 32) (b1 b2 id : Bytes) (L1 L2 : List Bytes)
+    (s1 : IdShape H b1 id L1) (s2 : IdShape H b2 id L2) :
+    b1 = b2 ∨ CollisionBetween H L1 L2 := by
+  unfold CollisionBetween
+  rcases s1 with ⟨e1, rfl, i1, rfl⟩ | ⟨e1, bs1, X1, Y1, rfl, i1, l1, c1⟩
+  · rcases s2 with ⟨e2, rfl, i2, rfl⟩ | ⟨e2, bs2, X2, Y2, rfl, i2, l2, c2⟩
     · -- no base / no base
       by_cases ho : H b1 = H b2
       · by_cases he : b1 = b2
         · exact Or.inl he
-        · exact Or.inr ⟨_, _, he, ho⟩
-      · exact Or.inr ⟨_, _, ho, i1.symm.trans i2⟩
-    · -- no base / base: the hashed strings have lengths 32 and 96
-      refine Or.inr ⟨_, _, ?_, i1.symm.trans i2⟩
-      intro he
-      have := congrArg List.length he
-      simp [hlen] at this
-  · rcases s2 with ⟨e2, rfl, i2⟩ | ⟨e2, bs2, X2, Y2, rfl, i2, l2, c2⟩
-    · refine Or.inr ⟨_, _, ?_, i1.symm.trans i2⟩
-      intro he
-      have := congrArg List.length he
-      simp [hlen] at this
+        · exact Or.inr ⟨b1, by simp, b2, by simp, he, ho⟩
+      · exact Or.inr ⟨H b1, by simp, H b2, by simp, ho, i1.symm.trans i2⟩
+    · -- no base / base: the last hashed strings have lengths 32 and 96
+      have hne : H b1 ≠ H e2 ++ (H (encBase bs2) ++ Y2) := by
+        intro he
+        have := congrArg List.length he
+        simp [hlen] at this
+      refine Or.inr ⟨H b1, by simp, H e2 ++ (H (encBase bs2) ++ Y2), ?_, hne, i1.symm.trans i2⟩
+      rcases c2 with ⟨_, _, _, rfl⟩ | ⟨_, _, rfl⟩ <;> simp
+  · rcases s2 with ⟨e2, rfl, i2, rfl⟩ | ⟨e2, bs2, X2, Y2, rfl, i2, l2, c2⟩
+    · have hne : H e1 ++ (H (encBase bs1) ++ Y1) ≠ H b2 := by
+        intro he
+        have := congrArg List.length he
+        simp [hlen] at this
+      refine Or.inr ⟨H e1 ++ (H (encBase bs1) ++ Y1), ?_, H b2, by simp, hne, i1.symm.trans i2⟩
+      rcases c1 with ⟨_, _, _, rfl⟩ | ⟨_, _, rfl⟩ <;> simp
     · -- base / base
+      have m1 : e1 ∈ L1 ∧ encBase bs1 ∈ L1 ∧ H e1 ++ (H (encBase bs1) ++ Y1) ∈ L1 := by
+        rcases c1 with ⟨_, _, _, rfl⟩ | ⟨_, _, rfl⟩ <;> simp
+      have m2 : e2 ∈ L2 ∧ encBase bs2 ∈ L2 ∧ H e2 ++ (H (encBase bs2) ++ Y2) ∈ L2 := by
+        rcases c2 with ⟨_, _, _, rfl⟩ | ⟨_, _, rfl⟩ <;> simp
       by_cases ho : H e1 ++ (H (encBase bs1) ++ Y1) = H e2 ++ (H (encBase bs2) ++ Y2)
       · obtain ⟨ha, hr⟩ := List.append_inj ho (by rw [hlen, hlen])
         obtain ⟨hbq, hy⟩ := List.append_inj hr (by rw [hlen, hlen])
         by_cases he : e1 = e2
         · by_cases hbe : encBase bs1 = encBase bs2
           · have hty := encBase_ty bs1 bs2 l1 l2 hbe
-            rcases c1 with ⟨z1, rfl, rfl⟩ | ⟨n1, rfl⟩
-            · rcases c2 with ⟨_, rfl, rfl⟩ | ⟨n2, _⟩
+            rcases c1 with ⟨z1, rfl, rfl, rfl⟩ | ⟨n1, rfl, rfl⟩
+            · rcases c2 with ⟨_, rfl, rfl, rfl⟩ | ⟨n2, _, _⟩
               · exact Or.inl (by rw [he, hbe])
               · exact absurd (hty ▸ z1) n2
-            · rcases c2 with ⟨z2, _, _⟩ | ⟨n2, rfl⟩
+            · rcases c2 with ⟨z2, _, _, _⟩ | ⟨n2, rfl, rfl⟩
               · exact absurd (hty ▸ z2) n1
               · by_cases hx : X1 = X2
                 · exact Or.inl (by rw [he, hbe, hx])
-                · exact Or.inr ⟨_, _, hx, hy⟩
-          · exact Or.inr ⟨_, _, hbe, hbq⟩
-        · exact Or.inr ⟨_, _, he, ha⟩
-      · exact Or.inr ⟨_, _, ho, i1.symm.trans i2⟩
+                · exact Or.inr ⟨X1, by simp, X2, by simp, hx, hy⟩
+          · exact Or.inr ⟨_, m1.2.1, _, m2.2.1, hbe, hbq⟩
+        · exact Or.inr ⟨_, m1.1, _, m2.1, he, ha⟩
+      · exact Or.inr ⟨_, m1.2.2, _, m2.2.2, ho, i1.symm.trans i2⟩
 
-/-- two strictly parsed transactions of the same version class with equal identifiers were parsed from the same bytes, or the
-equality exhibits a collision of `H` -/
+/-- two strictly parsed transactions of the same version class with equal identifiers were parsed from the same bytes, or
+two different strings — one hashed for the first identifier, one hashed for the second — have the same hash -/
 theorem txid_commits (H : Bytes → Bytes) (hlen : ∀ x, (H x).length = 32) (b1 b2 : Bytes) (t1 t2 : Tx)
     (h1 : tx b1 = some (t1, [])) (h2 : tx b2 = some (t2, []))
     (hv : t1.pre.version = 1 ↔ t2.pre.version = 1)
     (hid : txHash H t1 = txHash H t2) :
-    b1 = b2 ∨ ∃ u v, u ≠ v ∧ H u = H v := by
+    b1 = b2 ∨ CollisionBetween H (hashed H t1) (hashed H t2) := by
   by_cases hv1 : t1.pre.version = 1
   · have hv2 := hv.mp hv1
     have e1 := sound_tx _ _ _ h1
@@ -233,12 +299,44 @@ theorem txid_commits (H : Bytes → Bytes) (hlen : ∀ x, (H x).length = 32) (b1
     simp only [txHash, hv1, hv2, if_true] at hid
     by_cases he : encTx t1 = encTx t2
     · exact Or.inl (by rw [e1, e2, he])
-    · exact Or.inr ⟨_, _, he, hid⟩
+    · exact Or.inr ⟨encTx t1, by simp [hashed, hv1], encTx t2, by simp [hashed, hv2], he, hid⟩
   · have hv2 : ¬ t2.pre.version = 1 := fun h => hv1 (hv.mpr h)
-    exact idShape_commits H hlen b1 b2 (txHash H t2) (hid ▸ parsed_idShape H b1 t1 h1 hv1)
+    exact idShape_commits H hlen b1 b2 (txHash H t2) _ _ (hid ▸ parsed_idShape H b1 t1 h1 hv1)
       (parsed_idShape H b2 t2 h2 hv2)
 
-/- non-vacuity: the hypotheses are jointly satisfiable (a Null-type coinbase transaction, constant `H`) -/
+/-- the same without the hypothesis on the versions: the only further possibility is that the SERIALISATION of the version-1
+transaction is itself the 32- or 96-byte digest string hashed last for the other one (version-1 and RingCT identifiers are not
+domain-separated) -/
+theorem txid_commits_any_version (H : Bytes → Bytes) (hlen : ∀ x, (H x).length = 32) (b1 b2 : Bytes) (t1 t2 : Tx)
+    (h1 : tx b1 = some (t1, [])) (h2 : tx b2 = some (t2, []))
+    (hid : txHash H t1 = txHash H t2) :
+    b1 = b2 ∨ CollisionBetween H (hashed H t1) (hashed H t2) ∨
+      (t1.pre.version = 1 ∧ t2.pre.version ≠ 1 ∧ (hashed H t2).getLast? = some b1) ∨
+      (t2.pre.version = 1 ∧ t1.pre.version ≠ 1 ∧ (hashed H t1).getLast? = some b2) := by
+  by_cases hv : t1.pre.version = 1 ↔ t2.pre.version = 1
+  · rcases txid_commits H hlen b1 b2 t1 t2 h1 h2 hv hid with h | h
+    · exact Or.inl h
+    · exact Or.inr (Or.inl h)
+  · have e1 := sound_tx _ _ _ h1
+    have e2 := sound_tx _ _ _ h2
+    simp only [List.append_nil] at e1 e2
+    obtain ⟨u1, l1, q1⟩ := txHash_eq_hash_last H t1
+    obtain ⟨u2, l2, q2⟩ := txHash_eq_hash_last H t2
+    have hh : H u1 = H u2 := by rw [← q1, ← q2, hid]
+    by_cases hu : u1 = u2
+    · by_cases hv1 : t1.pre.version = 1
+      · have hv2 : t2.pre.version ≠ 1 := fun h => hv ⟨fun _ => h, fun _ => hv1⟩
+        have : u1 = encTx t1 := by simp [hashed, hv1] at l1; exact l1.symm
+        exact Or.inr (Or.inr (Or.inl ⟨hv1, hv2, by rw [l2, ← hu, this, e1]⟩))
+      · have hv2 : t2.pre.version = 1 := Classical.byContradiction fun h => hv ⟨fun h' => absurd h' hv1, fun h' => absurd h' h⟩
+        have : u2 = encTx t2 := by simp [hashed, hv2] at l2; exact l2.symm
+        exact Or.inr (Or.inr (Or.inr ⟨hv2, hv1, by rw [l1, hu, this, e2]⟩))
+    · exact Or.inr (Or.inl ⟨u1, List.mem_of_getLast? l1, u2, List.mem_of_getLast? l2, hu, hh⟩)
+
+/-- a 32-byte-valued function without collisions on the strings below (length byte, then the first 31 bytes, zero-padded) -/
+def toyH (x : Bytes) : Bytes := UInt8.ofNat x.length :: ((x ++ List.replicate 31 0).take 31)
+
+/- non-vacuity 1: the hypotheses are jointly satisfiable (a Null-type coinbase transaction, constant `H`) -/
 example : ∃ (H : Bytes → Bytes) (b1 b2 : Bytes) (t1 t2 : Tx), (∀ x, (H x).length = 32) ∧
     tx b1 = some (t1, []) ∧ tx b2 = some (t2, []) ∧ (t1.pre.version = 1 ↔ t2.pre.version = 1) ∧
     txHash H t1 = txHash H t2 :=
@@ -246,4 +344,23 @@ example : ∃ (H : Bytes → Bytes) (b1 b2 : Bytes) (t1 t2 : Tx), (∀ x, (H x).
    ⟨⟨2, 0, [.gen 5], [], []⟩, [], some ⟨0, 0, [], [], []⟩, none⟩,
    ⟨⟨2, 0, [.gen 5], [], []⟩, [], some ⟨0, 0, [], [], []⟩, none⟩,
    fun _ => by simp, by rfl, by rfl, Iff.rfl, rfl⟩
+
+theorem toyH_length (x : Bytes) : (toyH x).length = 32 := by
+  simp [toyH, List.length_take]
+
+/- non-vacuity 2: the conclusion is NOT a consequence of `hlen` alone — for `toyH` and two different accepted byte strings
+(coinbase transactions at heights 5 and 6) the second disjunct is false (no string hashed for the one identifier collides with a
+different string hashed for the other), so the theorem forces the identifiers to differ — and they do -/
+example : ∃ (b1 b2 : Bytes) (t1 t2 : Tx), tx b1 = some (t1, []) ∧ tx b2 = some (t2, []) ∧
+    (t1.pre.version = 1 ↔ t2.pre.version = 1) ∧ b1 ≠ b2 ∧ ¬ CollisionBetween toyH (hashed toyH t1) (hashed toyH t2) ∧
+    txHash toyH t1 ≠ txHash toyH t2 := by
+  refine ⟨[2, 0, 1, 0xff, 5, 0, 0, 0], [2, 0, 1, 0xff, 6, 0, 0, 0],
+    ⟨⟨2, 0, [.gen 5], [], []⟩, [], some ⟨0, 0, [], [], []⟩, none⟩,
+    ⟨⟨2, 0, [.gen 6], [], []⟩, [], some ⟨0, 0, [], [], []⟩, none⟩, by rfl, by rfl, by decide, by decide, ?_, ?_⟩
+  · have : ∀ u ∈ hashed toyH ⟨⟨2, 0, [.gen 5], [], []⟩, [], some ⟨0, 0, [], [], []⟩, none⟩,
+        ∀ v ∈ hashed toyH ⟨⟨2, 0, [.gen 6], [], []⟩, [], some ⟨0, 0, [], [], []⟩, none⟩, toyH u = toyH v → u = v := by
+      decide +kernel
+    rintro ⟨u, hu, v, hv, hne, he⟩
+    exact hne (this u hu v hv he)
+  · decide +kernel
 end Monero
